@@ -670,6 +670,62 @@ static void cmd_fdf(int nt, char **t)
 	free(path);
 }
 
+/* ---------------- locale (C14) ----------------
+ * LOC <0 C everywhere | 1 global comma locale | 2 per-thread comma locale | 3 both>
+ * LP <flags> <depth> <mode 0 len=n | 1 len=n+1 | 2 len=-1 | 3 len=-2> <hex>   parse with locale monitors
+ * LS <h> <flags>                                                              serialize with locale monitors
+ */
+static locale_t my_thread_locale;
+static void cmd_loc(int nt, char **t)
+{
+	int mode = (int)L(t[1]); const char *g; (void)nt;
+	uselocale(LC_GLOBAL_LOCALE);
+	if (my_thread_locale) { freelocale(my_thread_locale); my_thread_locale = (locale_t)0; }
+	g = setlocale(LC_ALL, (mode & 1) ? "xx_XX" : "C");
+	if (mode & 2) {
+		my_thread_locale = newlocale(LC_ALL_MASK, "xx_XX", (locale_t)0);
+		if (!my_thread_locale) { ob_puts(&out, "= fail newlocale"); return; }
+		uselocale(my_thread_locale);
+	}
+	{ char b[32]; snprintf(b, sizeof b, "%.1f", 1.5); ob_printf(&out, "= %s fmt=%s", g ? "ok" : "fail", b); }
+}
+struct locobs { locale_t h; char fmt[32]; double sd; long live, created, freed, foreign; };
+static void loc_observe(struct locobs *o)
+{
+	o->h = uselocale((locale_t)0);
+	snprintf(o->fmt, sizeof o->fmt, "%.1f|%g", 1.5, 1234567.25);
+	o->sd = strtod("1,5", NULL);
+	o->live = vf_loc_live; o->created = vf_loc_created; o->freed = vf_loc_freed; o->foreign = vf_loc_foreign_free;
+}
+static void loc_report(const struct locobs *a, const struct locobs *b)
+{
+	ob_printf(&out, " | loc_same=%d fmt_same=%d strtod_same=%d loc_live=%ld created=%ld freed=%ld foreign=%ld", a->h == b->h, !strcmp(a->fmt, b->fmt), a->sd == b->sd,
+	          b->live - a->live, b->created - a->created, b->freed - a->freed, b->foreign - a->foreign);
+}
+static void cmd_lp(int nt, char **t)
+{
+	size_t n; unsigned char *b; char *buf; struct json_tokener *tok; struct json_object *o; struct locobs x, y; int flags = (int)L(t[1]), depth = (int)L(t[2]), mode = (int)L(t[3]); (void)nt;
+	b = unhex(t[4], &n);
+	tok = depth > 0 ? json_tokener_new_ex(depth) : json_tokener_new();
+	json_tokener_set_flags(tok, flags);
+	buf = exact_copy(b, n + 1); buf[n] = 0;
+	loc_observe(&x);
+	o = json_tokener_parse_ex(tok, buf, mode == 0 ? (int)n : mode == 1 ? (int)n + 1 : mode == 2 ? -1 : -2);
+	loc_observe(&y);
+	emit_parse_result(tok, o);
+	loc_report(&x, &y);
+	json_object_put(o); json_tokener_free(tok); free(buf); free(b);
+}
+static void cmd_ls(int nt, char **t)
+{
+	int h = hidx(t[1]); int flags = (int)L(t[2]); size_t len = 0; const char *sx; struct locobs x, y; (void)nt;
+	loc_observe(&x);
+	sx = json_object_to_json_string_length(H[h], flags, &len);
+	loc_observe(&y);
+	ob_puts(&out, "= x"); if (sx) ob_hex(&out, sx, len); else ob_puts(&out, "NULL");
+	loc_report(&x, &y);
+}
+
 /* ---- strings (C11) ---- */
 /* SSTR <h> <hex> [lenoverride]   json_object_set_string_len from an exact-size block;  SSTRZ: json_object_set_string */
 static void cmd_sstr(int nt, char **t)
@@ -775,6 +831,9 @@ static void dispatch(int nt, char **t)
 	else if (!strcmp(c, "PGET")) cmd_pget(nt, t);
 	else if (!strcmp(c, "PATCH")) cmd_patch(nt, t);
 	else if (!strcmp(c, "VISIT")) cmd_visit(nt, t);
+	else if (!strcmp(c, "LOC")) cmd_loc(nt, t);
+	else if (!strcmp(c, "LP")) cmd_lp(nt, t);
+	else if (!strcmp(c, "LS")) cmd_ls(nt, t);
 	else if (!strcmp(c, "FDW")) cmd_fdw(nt, t);
 	else if (!strcmp(c, "FDR")) cmd_fdr(nt, t);
 	else if (!strcmp(c, "FDF")) cmd_fdf(nt, t);
